@@ -77,6 +77,15 @@ class GetterProfile(StoreProfile):
         if rng.random() < 0.1:
             base = gen_sid(rng, m, self.vocab(run), m.natural_type(base), run.scratch.get("value_pool"), reuse=0.7) or base
         s, feats = gen_search(rng, m, self.vocab(run), base, simple=rng.random() < 0.4, allow_last=rng.random() < 0.15)
+        if "comma_overlap" in feats:
+            # the shared search generator's own overlapping lists: asked here only in the runs set apart for them (F2),
+            # with records that identify their Sid
+            if run.params.get("overlap_lists"):
+                return {"op": "get", "party": rng.choice(["GP:" + cfg, "GA", "GA"]), "s": s, "attributes": None,
+                        "enc": rng.choice(["enc_str", "enc_uri"]), "held": rng.random() < 0.4, "overlap": True}
+            head, _, q = s.partition("?")
+            head = "/".join(",".join(a for a in seg.split(",") if a != "*") if "," in seg else seg for seg in head.split("/"))
+            s = head + ("?" + q if q else "")
         attrs = None
         if rng.random() < 0.5:
             attrs = rng.sample(ATTR_KEYS + ["missing_key", "sid"], rng.randint(1, 3))
